@@ -270,6 +270,26 @@ class VDualStore(DataSource, DataSink[FloatDataCollection]):
         return FloatDataCollection
 
 
+class VDualStoreSinkFirst(DataSink[FloatDataCollection], DataSource):
+    """The same two roles, bases written sink first."""
+
+    @classmethod
+    def _get_data(cls, slot: str = "default"):
+        return FloatDataType(7.0)
+
+    @classmethod
+    def output_data_type(cls):
+        return FloatDataType
+
+    @classmethod
+    def _send_data(cls, data, slot: str = "default"):
+        return None
+
+    @classmethod
+    def input_data_type(cls):
+        return FloatDataCollection
+
+
 class VDualPayloadStore(PayloadSource, PayloadSink[FloatDataCollection]):
     """A payload store that can be read (PayloadSource) and written (PayloadSink)."""
 
